@@ -156,7 +156,13 @@ fn fragment_insert(w: &World, st: &Step) -> bool {
     }
 }
 
+/// the canned probes that mutate an attribute object present through a DTD default (Probe 0, 1, 2)
+fn defaulted_attr_object_mutated(_w: &World, st: &Step) -> bool {
+    matches!(&st.op, Op::Probe { which, .. } if *which < 3)
+}
+
 pub const TRIGGERS: &[(&str, Pred)] = &[
+    ("defaulted_attr_object_mutated", defaulted_attr_object_mutated),
     ("fragment_insert", fragment_insert),
     ("attr_local_collision", attr_local_collision),
     ("factory_unstorable_data", factory_unstorable_data),
